@@ -185,6 +185,7 @@ func C15(c *Ctx) {
 	r.Rule("R15.5", "decision function: every MakeStrategyDecision call on a proposal passes (StrategyExpression, ApproveNum, AgainstNum, InitialElectorateNum, AvailableElectorateNum) of one and the same proposal, in this order.")
 	r.Rule("R15.9", "availability is read before it is changed: in LogoutRole the IsAvailable() test that guards the subtraction of the elector from the open proposals (updateRoleRelatedProposalInfo(.., EventLogout)) is made on the role as it was before basicGovernance moved it to logouting - a record loaded after that call is never available, the subtraction never happens, and every open proposal keeps counting an elector who can no longer vote (a rejected logout then adds one more).")
 	c.c15StaleAvailability()
+	c.c15ElectorateUpdate()
 	r.NotDecided = append(r.NotDecided, "semantics of govaluate strategy expressions; tally arithmetic over vote sequences; electorate snapshots; how often one lifecycle event adjusts AvailableElectorateNum over a submission / approval history (seed C15-r9)")
 
 	m := c.Contracts()
